@@ -151,7 +151,11 @@ def r4_pruning(run, F):
            "use_containee (the accepting exit) is dominated by the `not pruned` and `not poisoned` edges")
     pg = F.body(AN + "prepare_to_prune_at_goto")
     names = [c.get("name") for c in hirq.calls(pg["hir"]) if c.get("k") == "MethodCall"]
-    ok = "retain" in names and "and_modify" in names and "or_insert" in names and "extend" not in names and "insert" not in names
+    # growing the *kept* set (a field read `.intersection_of_variables` as receiver) would make it a union; building the local set of
+    # this goto with insert/extend is fine
+    grows = [c for c in hirq.calls(pg["hir"]) if c.get("k") == "MethodCall" and c.get("name") in ("extend", "insert", "append", "union")
+             and any(x.get("k") == "Field" and x.get("name") == "intersection_of_variables" for x in walk(c["recv"]))]
+    ok = "retain" in names and "and_modify" in names and "or_insert" in names and not grows
     run.ob("R4-INTERSECTION", "prepare_to_prune_at_goto", ok, F.where(pg),
            "the set kept per label must be the *intersection* of the variables in scope at each goto (retain), never a union: %s" % names)
     # the retain closure keeps x iff variables_in_scope.contains(x)
@@ -182,31 +186,23 @@ def r4_pruning(run, F):
 def r4b_identity_by_id(run, F):
     """Names are not identities: a nested block may declare `a`, and the enclosing block may declare another `a` later.  The sets
     that carry "which declarations were in scope at the goto" / "which may have been skipped" are keyed by the declaration's
-    resolution id.  In prepare_to_prune_at_goto what is collected from the variable stack is `identifier.resolution_id`, and in
-    prune_at_label the membership test is on `x.resolution_id`."""
-    def strip(e):
-        e = hirq.unwrap_trivial(e)
-        while e.get("k") in ("AddrOf", "Unary") and e.get("op") in (None, "Deref") or (e.get("k") == "MethodCall" and e.get("name") in ("clone", "to_owned", "to_string", "as_str")):
-            e = hirq.unwrap_trivial(e.get("e") or e.get("recv"))
-        return e
-    pg = F.body(AN + "prepare_to_prune_at_goto")
-    keys = []
-    for c in hirq.calls(pg["hir"]):
-        if c.get("k") == "MethodCall" and c.get("name") == "map" and c.get("a") and c["a"][0].get("k") == "Closure":
-            body = strip(c["a"][0]["body"])
-            if body.get("k") == "Field":
-                keys.append((body.get("name"), c))
-    run.ob("R4-IDENTITY-BY-ID", "prepare_to_prune_at_goto", len(keys) >= 1 and all(k == "resolution_id" for k, _ in keys), F.where(pg, keys[0][1]) if keys else F.where(pg),
-           "the variables in scope at a goto are collected by resolution id, not by name (a later declaration of the same name is another variable): %s" % [k for k, _ in keys])
-    pl = F.body(AN + "prune_at_label")
-    tests = []
-    for c in hirq.calls(pl["hir"]):
-        if c.get("k") == "MethodCall" and c.get("name") == "contains" and c.get("a"):
-            a0 = strip(c["a"][0])
-            if a0.get("k") == "Field":
-                tests.append((a0.get("name"), c))
-    run.ob("R4-IDENTITY-BY-ID", "prune_at_label", len(tests) >= 1 and all(k == "resolution_id" for k, _ in tests), F.where(pl, tests[0][1]) if tests else F.where(pl),
-           "whether a variable of the label's layer was in scope at every goto is asked by resolution id: %s" % [k for k, _ in tests])
+    resolution id.  In prepare_to_prune_at_goto and prune_at_label the only thing read from an identifier to identify it is
+    `resolution_id` (its location may be read for a diagnostic); `name` is never consulted there, in whatever form the code is
+    written (closure, loop, helper-free)."""
+    for fn in ("prepare_to_prune_at_goto", "prune_at_label"):
+        b = F.body(AN + fn)
+        reads = []
+        for n in walk(b["hir"]):
+            if n.get("k") == "Field":
+                inner = hirq.unwrap_trivial(n["e"])
+                t = str(F.lib.ty(inner.get("t"))) if inner.get("t") is not None else ""
+                if t.replace("&", "").replace("mut ", "").strip().endswith("common::Identifier"):
+                    reads.append((n.get("name"), n))
+        names = sorted(set(k for k, _ in reads))
+        bad = [x for x in reads if x[0] not in ("resolution_id", "location")]
+        run.ob("R4-IDENTITY-BY-ID", fn, "resolution_id" in names and not bad, F.where(b, bad[0][1]) if bad else F.where(b),
+               "variables are identified by resolution id in the goto pruning, never by name (a later declaration of the same name is another variable): "
+               "fields of identifiers read here: %s" % names)
 
 
 def r5_lookup(run, F):
